@@ -21,6 +21,8 @@ func init() {
 }
 
 func runC19(c *Ctx) {
+	c.rule("chain", "(shared with C11) the environment source derives names with the documented casings: flatten encodes UpperCamelCase, the reformatter decodes Go identifiers and encodes UPPER_SNAKE_CASE (re-decoding an all-caps encoding would run initialism extraction on ordinary words)", 5)
+	c11EnvChain(c)
 	c.rule("separator-agree", "for each separator-based scheme the rune/string the encoder joins with equals the rune the decoder splits on", 4)
 	c.rule("alphabet-agree", "no decoder's validity check rejects a decimal digit inside a word (encoders emit words over [a-z][a-z0-9]*), and all reject a leading digit the same way", 4)
 	c.rule("decoder-lowers", "every word appended by a decoder is the result of strings.ToLower, of the initialism extractor (which lower-cases), or a substring whose every rune was validated lower-case/digit", 8)
